@@ -143,6 +143,20 @@ def run(ctx):
                 return
             ctx.count("boundary_points")
     live = {}
+    # prior specifications written with integers (as the documentation's examples are), some of them large: the log-density
+    # is that of the named distribution whatever the Python type of the numbers
+    for pr, x in ((["gamma", 2, 4], 0.7), (["gamma", 20, 10], 2.1), (["gamma", 32, 4], 8.5), (["gamma", 70, 2], 33.0), (["beta", 30, 40], 0.4),
+                  (["beta", 2, 3], 0.5), (["exponential", 3], 1), (["uniform", 0, 5], 2), (["gaussian", 3, 2], 4), (["log-uniform", 1, 100], 7),
+                  (["log-gaussian", 1, 2], 3)):
+        case = {"priors": {"p0": pr}, "values": {"p0": x}, "integer_typed": True}
+        ctx.begin_case(case)
+        lp = float(DeterministicInference(["p0"], M, {"p0": pr}).check_prior({"p0": x}))
+        want = float(scipy_logpdf([pr[0]] + [float(q) for q in pr[1:]], float(x)))
+        ctx.evaluated()
+        if not math.isfinite(lp) or (relerr(lp, want) > 1e-9 and abs(lp - want) > 1e-9):
+            ctx.violation("prior/value/integer-typed/" + pr[0], "log-prior %r of the value %r under %s, the named density gives %r" % (lp, x, pr, want), case)
+            return
+        ctx.count("integer_typed_specs")
     for i in range(n):
         k = 1 if i % 3 else rng.randint(2, 4)
         names = ["p%d" % j for j in range(k)]
